@@ -21,6 +21,8 @@ ACTIONS = ["RTCheck", "RTRead", "RTDClose", "RTEod", "RTPushChk", "RTPushEnq", "
 
 def design(ctx, cfgs, workers_each=5):
     """cfgs: list of (cfgfile, label, coverage?)"""
+    if os.environ.get("VERIF_DEV_SKIP_DESIGN"):      # development only (mutation runs against a scratch tree)
+        return
     def one(job):
         cfg, label, cov = job
         return job, vlib.tlc("MCReaderPipeline", cfg, workers=workers_each, coverage=cov, timeout=3000, tag=cfg[:-4],
@@ -34,10 +36,30 @@ def design(ctx, cfgs, workers_each=5):
 
 
 def export(ctx, family):
-    r = vlib.tlc_ok(vlib.tlc("MCReaderPipeline", "GenRP_%s.cfg" % family, workers=4, timeout=1500, tag="genrp_" + family,
+    prefix = "GenRP_" if ctx.tier == "quick" else "GenRPT_"
+    r = vlib.tlc_ok(vlib.tlc("MCReaderPipeline", prefix + "%s.cfg" % family, workers=4, timeout=1500, tag="genrp_" + family,
                              keep_out=False), "export " + family)
     ctx.add_tlc(r, "export of configurations with Expected(cfg): family " + family)
     return r.cases
+
+
+def parallel(*thunks):
+    """run independent steps (TLC runs) concurrently; returns their results in order"""
+    with ThreadPoolExecutor(max_workers=len(thunks)) as ex:
+        futs = [ex.submit(t) for t in thunks]
+        return [f.result() for f in futs]
+
+
+def literal_reads_ok(c):
+    """real files: a literal read() of the model delivers one model buffer; that is one real buffer only when every
+    delivered block has exactly one nested buffer.  Scripts that only use readall before the end are always fine."""
+    cfg = c["cfg"]
+    sc = cfg["script"]
+    lit = [i for i, op in enumerate(sc) if op == "read" and "readall" not in sc[:i]]
+    if not lit:
+        return True
+    hdr = 1 if cfg.get("hdrblk") else 0
+    return all(cfg["nest"][m - 1] == 1 for m in range(1 + hdr, cfg["n"] + 1) if m not in cfg["skip"])
 
 
 def fault_key(c):
@@ -90,7 +112,8 @@ def mk_case(i, mode, c, rnd, nseeds, **kw):
     d = {"id": "%s-%d" % (mode, i), "mode": mode, "cfg": cfg, "expected": c["expected"], "qin": qin, "qout": qout,
          "qwork": rnd.choice([2, 10]), "pool_threads": rnd.choice([1, 2, 4]),
          "seeds": [rnd.randrange(1, 1 << 30) for _ in range(nseeds)],
-         "sched_prob": rnd.choice([15, 35, 60]), "sched_max_us": rnd.choice([50, 200, 600])}
+         "sched_prob": rnd.choice([15, 35, 60]), "sched_max_us": rnd.choice([50, 200, 600]),
+         "budget_s": 12}        # watchdog per execution (a normal execution takes milliseconds)
     d.update(kw)
     return d
 
@@ -206,7 +229,7 @@ def run_cases(ctx, cases, tag="t"):
                 ctx.violation(sig_of(c, kind), {"case": c, "result": r}, what)
             else:
                 what = "%s: exp=%s got=%s" % (r.get("note", ""), json.dumps(r.get("exp"))[:400], json.dumps(r.get("got"))[:600])
-                ctx.violation(sig_of(c, "log"), {"case": c, "result": r}, what)
+                ctx.violation(sig_of(c, "hang" if r.get("note", "").startswith("hang") else "log"), {"case": c, "result": r}, what)
         for case, what, lines in rejected:
             ctx.violation(sig_of(case, "trace"), {"case": case, "trace": lines}, what)
         nvalid += nok
